@@ -7,11 +7,17 @@ import signal
 import sys
 
 
-class Timeout(Exception):
-    pass
+class Timeout(BaseException):
+    """Per-file time limit.  A BaseException so that `except Exception` clauses inside fparser /
+    PSyclone cannot swallow it; [_FIRED] additionally records that the alarm went off, in case a
+    bare `except:` did swallow it (the result is then discarded as a timeout, never classified)."""
+
+
+_FIRED = [False]
 
 
 def _alarm(_s, _f):
+    _FIRED[0] = True
     raise Timeout()
 
 
@@ -69,6 +75,15 @@ def items(psyir):
                 c["Comment:" + n.preceding_comment] += 1
             if n.inline_comment:
                 c["Inline:" + n.inline_comment] += 1
+    # generic interfaces: every specific procedure with its kind (module procedure / procedure)
+    from psyclone.psyir.nodes import ScopingNode
+    from psyclone.psyir.symbols import GenericInterfaceSymbol
+    for sc in psyir.walk(ScopingNode):
+        for sym in sc.symbol_table.symbols:
+            if isinstance(sym, GenericInterfaceSymbol):
+                for info in sym.routines:
+                    c["InterfaceProc:%s:%s:%s" % (sym.name.lower(), "module" if info.from_container else "plain",
+                                                  info.symbol.name.lower())] += 1
     return c
 
 
@@ -113,9 +128,24 @@ def roundtrip(src=None, path=None, limit=None, tree=None, fold_case=False):
     """Returns a dict: status in {refused, write1-error, reread-error, write2-error, unstable,
     items-changed, stable, timeout}, plus w1/w2/first diff/items diff as applicable."""
     res = {"status": None}
+    _FIRED[0] = False
     if limit:
         signal.signal(signal.SIGALRM, _alarm)
         signal.alarm(limit)
+    try:
+        return _roundtrip(res, src, path, tree, fold_case)
+    except Timeout:
+        return {"status": "timeout"}
+    finally:
+        if limit:
+            signal.alarm(0)
+        if _FIRED[0]:
+            # whatever was computed after the alarm fired is not trustworthy
+            res.clear()
+            res["status"] = "timeout"
+
+
+def _roundtrip(res, src, path, tree, fold_case):
     try:
         try:
             p1 = tree if tree is not None else (read_file(path) if path is not None else read_text(src))
@@ -175,12 +205,8 @@ def roundtrip(src=None, path=None, limit=None, tree=None, fold_case=False):
             if dlost or dadded:
                 res.update(dlost=dlost, dadded=dadded)
         return res
-    except Timeout:
-        res["status"] = "timeout"
-        return res
     finally:
-        if limit:
-            signal.alarm(0)
+        pass
 
 
 ACCESS_RE = re.compile(r"^(public|private)\s*::\s*(.*)$")
@@ -222,6 +248,8 @@ def classify(w1, w2):
         if names(a1) == names(a2):
             return "gen_access_stmts/name-order-follows-table-order"
         return "gen_access_stmts/names-changed"
+    if only1 and only2 and all(re.match(r"(module\s+)?procedure\b", x, re.I) for x in only1 + only2):
+        return "interface/procedure-statements-changed"
     if only1 and not only2 and all(x.startswith("!") for x in only1):
         if any(x.lower().startswith("!$") for x in only1):
             return "FortranReader/directive-lines-dropped"
